@@ -57,6 +57,16 @@ def gen_message(r, name):
             f["map"] = True
             f["type"] = "string"
         fields.append(f)
+    # field numbers are independent of the declaration order (fields added later, regrouped): mostly a
+    # shuffled, gapped assignment; sometimes the ordinary 1..n
+    nums = list(range(1, len(fields) + 1))
+    mode = r.random()
+    if mode < 0.65:
+        nums = r.sample(range(1, 3 * len(fields) + 4), len(fields))
+    elif mode < 0.8:
+        nums = list(reversed(nums))
+    for f, k in zip(fields, nums):
+        f["number"] = k
     return {"name": name, "fields": fields}
 
 
@@ -182,16 +192,27 @@ def corpus_specs():
         s["messages"] = msgs
         s["services"] = [{"name": "Library", "methods": [{"name": "Ping", "input": "google.protobuf.Empty", "internal": False, "ss": False, "cs": False, "lro": False}]}] + svcs
         out.append(("extended_operation_" + tr.replace("+", "_"), s))
-    # (4) keyword-named + internal methods, reserved-word fields, all three kinds (the shape of Props.C15.apiEx)
+    # (3c) field numbers not monotonic in declaration order inside the required and inside the optional group
+    s = base("grpc")
+    s["messages"] = [{"name": "CreateBookRequest", "fields": [
+        _fd("parent", True, number=1), _fd("book_id", False, number=3), _fd("title", True, number=2),
+        _fd("validate_only", False, "bool", number=5), _fd("request_id", False, number=4)]},
+        {"name": "MoveRequest", "fields": [_fd("parent", True, number=4), _fd("from", True, number=2), _fd("to", False, number=9), _fd("etag", False, number=1)]}]
+    s["services"] = [{"name": "Library", "methods": [
+        {"name": "CreateBook", "input": "CreateBookRequest", "internal": False, "ss": False, "cs": False, "lro": False},
+        {"name": "Move", "input": "MoveRequest", "internal": False, "ss": False, "cs": False, "lro": False}]}]
+    out.append(("nonmonotonic_field_numbers", s))
+    # (4) keyword-named + internal methods, reserved-word fields, all three kinds, field numbers running AGAINST the
+    #     declaration order (the shape of Props.C15.apiEx)
     s = base("grpc+rest")
     s["messages"] = [{"name": "GetBookRequest", "fields": [
-        dict(name="filter", type="string", required=False, repeated=False, optional=False, oneof=None, map=False),
-        dict(name="name", type="string", required=True, repeated=False, optional=False, oneof=None, map=False),
-        dict(name="class", type="string", required=False, repeated=False, optional=False, oneof=None, map=False),
-        dict(name="parent", type="string", required=True, repeated=False, optional=False, oneof=None, map=False)]},
+        dict(name="filter", type="string", required=False, repeated=False, optional=False, oneof=None, map=False, number=4),
+        dict(name="name", type="string", required=True, repeated=False, optional=False, oneof=None, map=False, number=3),
+        dict(name="class", type="string", required=False, repeated=False, optional=False, oneof=None, map=False, number=1),
+        dict(name="parent", type="string", required=True, repeated=False, optional=False, oneof=None, map=False, number=2)]},
         {"name": "ImportRequest", "fields": [
-            dict(name="from", type="string", required=False, repeated=False, optional=False, oneof=None, map=False),
-            dict(name="in", type="int32", required=True, repeated=False, optional=False, oneof=None, map=False)]}]
+            dict(name="from", type="string", required=False, repeated=False, optional=False, oneof=None, map=False, number=2),
+            dict(name="in", type="int32", required=True, repeated=False, optional=False, oneof=None, map=False, number=1)]}]
     s["services"] = [{"name": "Library", "methods": [
         {"name": "GetBook", "input": "GetBookRequest", "internal": False, "ss": False, "cs": False, "lro": False},
         {"name": "Import", "input": "ImportRequest", "internal": True, "ss": False, "cs": False, "lro": False}]},
@@ -203,8 +224,11 @@ def corpus_specs():
 # ---------------------------------------------------------------------------------------------
 # spec -> descriptors / request / model input
 
-def _fd(name, required=False, type="string"):
-    return dict(name=name, type=type, required=required, repeated=False, optional=False, oneof=None, map=False)
+def _fd(name, required=False, type="string", number=None):
+    d = dict(name=name, type=type, required=required, repeated=False, optional=False, oneof=None, map=False)
+    if number is not None:
+        d["number"] = number
+    return d
 
 
 def extop_parts():
@@ -264,7 +288,7 @@ def build_files(spec):
         for fd in m["fields"]:
             kw = dict(required=fd["required"])
             if fd.get("map"):
-                mm.map_field(fd["name"], "string", "string")
+                mm.map_field(fd["name"], "string", "string", fd.get("number"))
                 if fd["required"]:
                     mm.pb.field[-1].options.Extensions[apigen.field_behavior_pb2.field_behavior].append(apigen.field_behavior_pb2.REQUIRED)
                 continue
@@ -273,7 +297,7 @@ def build_files(spec):
                 tn = book
             elif typ == "enum":
                 tn = color
-            mm.field(fd["name"], typ, type_name=tn, repeated=fd.get("repeated", False), oneof=fd.get("oneof"),
+            mm.field(fd["name"], typ, fd.get("number"), type_name=tn, repeated=fd.get("repeated", False), oneof=fd.get("oneof"),
                      optional=fd.get("optional", False), **kw)
     f2 = None
     for k, s in enumerate(spec["services"]):
@@ -341,6 +365,13 @@ def input_fields(spec, m):
     return [(f["name"], bool(f["required"])) for f in msg["fields"]]
 
 
+def input_numbers(spec, m):
+    if m["input"].startswith("google."):
+        return []
+    msg = next(x for x in spec["messages"] if x["name"] == m["input"])
+    return [int(f.get("number") or (i + 1)) for i, f in enumerate(msg["fields"])]
+
+
 def model_input(spec, naming, service_order):
     """service_order: names in the order of the real `api.services.values()` (a ChainMap over the proto files:
     later files first) — the only thing read from the schema object besides the naming"""
@@ -351,7 +382,7 @@ def model_input(spec, naming, service_order):
                     "versioned_module": naming.versioned_module_name,
                     "services": [{"name": s["name"], "methods": [
                         {"name": m["name"], "internal": bool(m["internal"]), "proto_plus": not m["input"].startswith("google."),
-                         "ext_op": m.get("ext") == "op", "fields": [[n, rq] for n, rq in input_fields(spec, m)]}
+                         "ext_op": m.get("ext") == "op", "fields": [[n, rq, num] for (n, rq), num in zip(input_fields(spec, m), input_numbers(spec, m))]}
                         for m in s["methods"]]} for s in services]}}
 
 
@@ -422,6 +453,10 @@ def run_spec(ctx, spec, label, probe=None):
                           ("keyword" if m["name"] in KEYWORD_RPCS else "plain"))
                 ctx.count("request_fields", len(input_fields(spec, m)))
                 ctx.count("required_fields", sum(1 for _, q in input_fields(spec, m) if q))
+                nums = input_numbers(spec, m)
+                fl_ = input_fields(spec, m)
+                groups = [[k for k, (_, q) in zip(nums, fl_) if q], [k for k, (_, q) in zip(nums, fl_) if not q]]
+                ctx.count("field_numbers", "monotonic within groups" if all(g == sorted(g) for g in groups) else "NOT monotonic within a group")
         # ------------------------------------------------------------------ T2
         from google.protobuf.json_format import MessageToDict
         from gapic.utils import to_snake_case
@@ -697,7 +732,8 @@ def _run(ctx):
     ctx.rule = ("APIs of 2..4 services in one package (1 or 2 proto files; 4 package shapes; optional name/namespace options) with "
                 "1..5 RPCs each drawn from keyword-named (any letter case), internal (selective generation, "
                 "generate_omitted_as_internal), snake/acronym/digit-named pools; requests of 0..7 fields drawn from reserved-word and "
-                "plain pools (REQUIRED at random positions, repeated/map/optional/oneof/message/enum), Empty requests, streaming and "
+                "plain pools (REQUIRED at random positions, repeated/map/optional/oneof/message/enum; field NUMBERS shuffled/gapped/reversed "
+                "independently of the declaration order), Empty requests, streaming and "
                 "LRO RPCs x transports {grpc, rest, grpc+rest, rest+grpc}; distinct by API spec; every API is non-trivial")
     ctx.assume("one target proto package without sub-packages: service names are pairwise distinct (WF)")
     ctx.assume("RPC names are pairwise distinct up to case/underscores inside a service's snake_case image (two RPCs mapping to one python method name are C12's subject)")
